@@ -202,7 +202,8 @@ fn check(c: &Case, ctx: &Ctx) -> Outcome {
                     std::fs::create_dir_all(dir.join(format!("run{si}"))).unwrap();
                     format!("run{si}/contigs.fa")
                 } else {
-                    format!("{n}.fa")
+                    // the sample name is the file name without its extension, however the extension is capitalised
+                    format!("{n}{}", [".fa", ".FA", ".fasta", ".FASTA", ".Fa"][(si + m.sites.len()) % 5])
                 };
                 cli::write_fasta_auto(&dir.join(&f), recs, width_of(c, si));
                 args.push(f);
